@@ -97,9 +97,20 @@ func c11Recipe(cs *c11Case, p, s int) *rec.Rec {
 		big = r.Chance(1, 40)
 	}
 	m := gen.ControllerMessage(r, kind, gen.MsgOpt{Big: big})
-	if cs.Profile != "small" && r.Chance(1, 25) {
+	if cs.Profile != "small" && r.Chance(1, 12) {
 		// the largest frames the 16-bit length can describe: a packet-out of exactly 65535, 65534 or 65528 bytes
 		n := r.Pick(65535, 65535, 65534, 65528) - 24
+		if r.Bool() { // sizes that are whole multiples of the units a writer might cut a large frame into (MSS, pages, powers of two)
+			unit := r.Pick(1460, 1448, 536, 1024, 4096, 8192, 16384, 2048, 1500)
+			k := 1 + r.Intn(65535/unit)
+			n = unit*k - 24 + r.Pick(0, 0, 0, 1, -1)
+			if n < 0 {
+				n = 0
+			}
+			if n+24 > 65535 {
+				n = 65535 - 24
+			}
+		}
 		m = rec.New("packet_out").Set("buffer_id", 0xffffffff).Set("in_port", r.Bits(32)).SetB("data", r.Bytes(n))
 	}
 	xid := uint64(p)<<20 | uint64(s)
